@@ -13,6 +13,10 @@
 (*   shiftOK    : the population-control shift is a finite number          *)
 (*   nKilled    : kills counted by the sampler in this call                *)
 (*   keySplits  : PRNG key splits performed in this call                   *)
+(*   shiftSrc   : where the population-control shift currently comes from: *)
+(*                "carried" (left over from an earlier sampler call),      *)
+(*                "estimate" (reset to e_estimate at entry), "step" (set by *)
+(*                a propagation step), "relaxed" (mixed with a block energy)*)
 (*   hist       : estimator-relevant actions of this call (for the         *)
 (*                "all entry points compute the same estimator" property)  *)
 (*                                                                         *)
@@ -45,10 +49,10 @@ CONSTANTS
   Mutation                    \* "none", or a deliberately broken design for the negative configs
 
 VARIABLES phase, iter, pc, opts, entry, bs, sr, ene, step,
-          stale, alive, shiftOK, nKilled, keySplits, measures, hist
+          stale, alive, shiftOK, nKilled, keySplits, measures, hist, shiftSrc
 
 vars == <<phase, iter, pc, opts, entry, bs, sr, ene, step,
-          stale, alive, shiftOK, nKilled, keySplits, measures, hist>>
+          stale, alive, shiftOK, nKilled, keySplits, measures, hist, shiftSrc>>
 
 N == Cardinality(Walkers)
 
@@ -63,7 +67,7 @@ Init ==
   /\ entry = "plain" /\ bs = [steps |-> 0, ene |-> 0, sr |-> 0]
   /\ sr = 0 /\ ene = 0 /\ step = 0
   /\ stale = TRUE /\ alive = AllAlive /\ shiftOK = TRUE
-  /\ nKilled = 0 /\ keySplits = 0 /\ measures = 0 /\ hist = <<>>
+  /\ nKilled = 0 /\ keySplits = 0 /\ measures = 0 /\ hist = <<>> /\ shiftSrc = "estimate"
 
 \* ------------------------------------------------------------------ driver
 DriverInit ==                      \* init_prop_data: walkers, weights = 1, overlaps of those walkers
@@ -71,6 +75,7 @@ DriverInit ==                      \* init_prop_data: walkers, weights = 1, over
   /\ stale' = FALSE /\ alive' = AllAlive /\ shiftOK' = TRUE
   /\ IF NEql > 0 THEN phase' = "eql" ELSE phase' = "sampling"
   /\ iter' = 1 /\ pc' = "d_call"
+  /\ shiftSrc' = "estimate"
   /\ UNCHANGED <<opts, entry, bs, sr, ene, step, nKilled, keySplits, measures, hist>>
 
 DriverCall ==
@@ -82,22 +87,24 @@ DriverCall ==
         /\ pc' = IF HasOptimize(e) THEN "opt" ELSE IF HasBuild(e) THEN "build" ELSE "entry_refresh"
   /\ sr' = 1 /\ ene' = 1 /\ step' = 1
   /\ keySplits' = 0 /\ measures' = 0 /\ hist' = <<>>
+  /\ shiftSrc' = "carried"
   /\ UNCHANGED <<phase, iter, opts, stale, alive, shiftOK, nKilled>>
 
 \* ------------------------------------------------------------------ sampler
 Optimize ==
   /\ pc = "opt" /\ pc' = "build"
-  /\ UNCHANGED <<phase, iter, opts, entry, bs, sr, ene, step, stale, alive, shiftOK, nKilled, keySplits, measures, hist>>
+  /\ UNCHANGED <<phase, iter, opts, entry, bs, sr, ene, step, stale, alive, shiftOK, nKilled, keySplits, measures, hist, shiftSrc>>
 
 Build ==
   /\ pc = "build" /\ pc' = "entry_refresh"
-  /\ UNCHANGED <<phase, iter, opts, entry, bs, sr, ene, step, stale, alive, shiftOK, nKilled, keySplits, measures, hist>>
+  /\ UNCHANGED <<phase, iter, opts, entry, bs, sr, ene, step, stale, alive, shiftOK, nKilled, keySplits, measures, hist, shiftSrc>>
 
 EntryRefresh ==
   /\ pc = "entry_refresh"
   /\ stale' = IF Mutation = "no_entry_refresh" THEN stale ELSE FALSE
   /\ nKilled' = 0
   /\ pc' = "key"
+  /\ shiftSrc' = IF Mutation = "no_shift_reset" THEN shiftSrc ELSE "estimate"
   /\ UNCHANGED <<phase, iter, opts, entry, bs, sr, ene, step, alive, shiftOK, keySplits, measures, hist>>
 
 KeySplit ==
@@ -106,7 +113,7 @@ KeySplit ==
   /\ step' = 1
   /\ pc' = IF bs.steps > 0 THEN "step" ELSE "kill"
   /\ hist' = Append(hist, "key")
-  /\ UNCHANGED <<phase, iter, opts, entry, bs, sr, ene, stale, alive, shiftOK, nKilled, measures>>
+  /\ UNCHANGED <<phase, iter, opts, entry, bs, sr, ene, stale, alive, shiftOK, nKilled, measures, shiftSrc>>
 
 (***************************************************************************)
 (* One propagation step.  It DIVIDES by the stored overlaps: this is the   *)
@@ -124,6 +131,7 @@ Step ==
   /\ IF step < bs.steps THEN step' = step + 1 /\ pc' = "step"
                         ELSE step' = step /\ pc' = "kill"
   /\ hist' = Append(hist, "step")
+  /\ shiftSrc' = "step"
   /\ UNCHANGED <<phase, iter, opts, entry, bs, sr, ene, nKilled, keySplits, measures>>
 
 KillCount ==
@@ -131,28 +139,28 @@ KillCount ==
   /\ nKilled' = nKilled + Cardinality({w \in Walkers : ~alive[w]})
   /\ pc' = "qr"
   /\ hist' = Append(hist, "kill")
-  /\ UNCHANGED <<phase, iter, opts, entry, bs, sr, ene, step, stale, alive, shiftOK, keySplits, measures>>
+  /\ UNCHANGED <<phase, iter, opts, entry, bs, sr, ene, step, stale, alive, shiftOK, keySplits, measures, shiftSrc>>
 
 BlockQR ==
   /\ pc = "qr"
   /\ stale' = TRUE                      \* walkers rescaled by R^-1, stored overlaps untouched
   /\ pc' = "refresh"
   /\ hist' = Append(hist, "qr")
-  /\ UNCHANGED <<phase, iter, opts, entry, bs, sr, ene, step, alive, shiftOK, nKilled, keySplits, measures>>
+  /\ UNCHANGED <<phase, iter, opts, entry, bs, sr, ene, step, alive, shiftOK, nKilled, keySplits, measures, shiftSrc>>
 
 BlockRefresh ==
   /\ pc = "refresh"
   /\ stale' = IF Mutation = "no_block_refresh" THEN stale ELSE FALSE
   /\ pc' = "measure"
   /\ hist' = Append(hist, "refresh")
-  /\ UNCHANGED <<phase, iter, opts, entry, bs, sr, ene, step, alive, shiftOK, nKilled, keySplits, measures>>
+  /\ UNCHANGED <<phase, iter, opts, entry, bs, sr, ene, step, alive, shiftOK, nKilled, keySplits, measures, shiftSrc>>
 
 Measure ==
   /\ pc = "measure"
   /\ measures' = measures + 1
   /\ pc' = "shift"
   /\ hist' = Append(hist, "measure")
-  /\ UNCHANGED <<phase, iter, opts, entry, bs, sr, ene, step, stale, alive, shiftOK, nKilled, keySplits>>
+  /\ UNCHANGED <<phase, iter, opts, entry, bs, sr, ene, step, stale, alive, shiftOK, nKilled, keySplits, shiftSrc>>
 
 ShiftRelax ==                           \* shift = 0.9 shift + 0.1 block_energy (block weight > 0 needed)
   /\ pc = "shift"
@@ -161,6 +169,7 @@ ShiftRelax ==                           \* shift = 0.9 shift + 0.1 block_energy 
      THEN ene' = ene + 1 /\ pc' = "key" /\ UNCHANGED sr
      ELSE /\ UNCHANGED <<ene, sr>>
           /\ pc' = IF HasSR(entry) THEN "sr" ELSE "norm"
+  /\ shiftSrc' = "relaxed"
   /\ UNCHANGED <<phase, iter, opts, entry, bs, step, stale, alive, shiftOK, nKilled, keySplits, measures>>
 
 SRLocal ==
@@ -170,7 +179,7 @@ SRLocal ==
   /\ alive' = IF AnyAlive(alive) THEN AllAlive ELSE alive
   /\ pc' = "sr_refresh"
   /\ hist' = Append(hist, "sr")
-  /\ UNCHANGED <<phase, iter, opts, entry, bs, sr, ene, step, shiftOK, nKilled, measures>>
+  /\ UNCHANGED <<phase, iter, opts, entry, bs, sr, ene, step, shiftOK, nKilled, measures, shiftSrc>>
 
 SRRefresh ==
   /\ pc = "sr_refresh"
@@ -178,37 +187,37 @@ SRRefresh ==
   /\ hist' = Append(hist, "sr_refresh")
   /\ IF sr < bs.sr THEN sr' = sr + 1 /\ ene' = 1 /\ pc' = "key"
                    ELSE UNCHANGED <<sr, ene>> /\ pc' = "norm"
-  /\ UNCHANGED <<phase, iter, opts, entry, bs, step, alive, shiftOK, nKilled, keySplits, measures>>
+  /\ UNCHANGED <<phase, iter, opts, entry, bs, step, alive, shiftOK, nKilled, keySplits, measures, shiftSrc>>
 
 Normalise ==                            \* n_killed_walkers /= n_sr_blocks * n_ene_blocks * n_walkers
   /\ pc = "norm" /\ pc' = "ret"
-  /\ UNCHANGED <<phase, iter, opts, entry, bs, sr, ene, step, stale, alive, shiftOK, nKilled, keySplits, measures, hist>>
+  /\ UNCHANGED <<phase, iter, opts, entry, bs, sr, ene, step, stale, alive, shiftOK, nKilled, keySplits, measures, hist, shiftSrc>>
 
 Return ==
   /\ pc = "ret" /\ pc' = "d_reduce"
-  /\ UNCHANGED <<phase, iter, opts, entry, bs, sr, ene, step, stale, alive, shiftOK, nKilled, keySplits, measures, hist>>
+  /\ UNCHANGED <<phase, iter, opts, entry, bs, sr, ene, step, stale, alive, shiftOK, nKilled, keySplits, measures, hist, shiftSrc>>
 
 \* ------------------------------------------------------------------ driver, after the sampler call
 DriverReduce ==
   /\ pc = "d_reduce" /\ pc' = "d_qr"
-  /\ UNCHANGED <<phase, iter, opts, entry, bs, sr, ene, step, stale, alive, shiftOK, nKilled, keySplits, measures, hist>>
+  /\ UNCHANGED <<phase, iter, opts, entry, bs, sr, ene, step, stale, alive, shiftOK, nKilled, keySplits, measures, hist, shiftSrc>>
 
 DriverQR ==
   /\ pc = "d_qr"
   /\ stale' = TRUE
   /\ pc' = IF phase = "sampling" /\ SaveWalkers THEN "d_save" ELSE "d_sr"
-  /\ UNCHANGED <<phase, iter, opts, entry, bs, sr, ene, step, alive, shiftOK, nKilled, keySplits, measures, hist>>
+  /\ UNCHANGED <<phase, iter, opts, entry, bs, sr, ene, step, alive, shiftOK, nKilled, keySplits, measures, hist, shiftSrc>>
 
 DriverSave ==
   /\ pc = "d_save" /\ pc' = "d_sr"
-  /\ UNCHANGED <<phase, iter, opts, entry, bs, sr, ene, step, stale, alive, shiftOK, nKilled, keySplits, measures, hist>>
+  /\ UNCHANGED <<phase, iter, opts, entry, bs, sr, ene, step, stale, alive, shiftOK, nKilled, keySplits, measures, hist, shiftSrc>>
 
 DriverSRGlobal ==
   /\ pc = "d_sr"
   /\ stale' = TRUE
   /\ alive' = IF AnyAlive(alive) THEN AllAlive ELSE alive
   /\ pc' = "d_est"
-  /\ UNCHANGED <<phase, iter, opts, entry, bs, sr, ene, step, shiftOK, nKilled, keySplits, measures, hist>>
+  /\ UNCHANGED <<phase, iter, opts, entry, bs, sr, ene, step, shiftOK, nKilled, keySplits, measures, hist, shiftSrc>>
 
 DriverEstimate ==                       \* e_estimate = 0.9 e_estimate + 0.1 block energy; next iteration
   /\ pc = "d_est"
@@ -218,7 +227,7 @@ DriverEstimate ==                       \* e_estimate = 0.9 e_estimate + 0.1 blo
                ELSE phase' = "post" /\ iter' = iter /\ pc' = "d_done"
      ELSE IF iter < NBlocks THEN iter' = iter + 1 /\ pc' = "d_call" /\ UNCHANGED phase
           ELSE phase' = "post" /\ iter' = iter /\ pc' = "d_done"
-  /\ UNCHANGED <<opts, entry, bs, sr, ene, step, stale, alive, shiftOK, nKilled, keySplits, measures, hist>>
+  /\ UNCHANGED <<opts, entry, bs, sr, ene, step, stale, alive, shiftOK, nKilled, keySplits, measures, hist, shiftSrc>>
 
 Done == pc = "d_done" /\ UNCHANGED vars
 
@@ -252,6 +261,10 @@ KeyDiscipline == pc = "ret" =>
                    keySplits = (IF HasSR(entry) THEN bs.sr * bs.ene + bs.sr ELSE bs.ene)
 MeasureCount  == pc = "ret" =>
                    measures = (IF HasSR(entry) THEN bs.sr * bs.ene ELSE bs.ene)
+
+\* every sampler call (re)initialises the population-control shift from the running estimate before its first
+\* propagation step: a shift carried over from an earlier call is never used
+ShiftInitialised == pc = "step" => shiftSrc # "carried"
 
 TypeOK ==
   /\ phase \in {"init", "eql", "sampling", "post"}
